@@ -252,7 +252,7 @@ class FuzzStage:
                    "-runs=%d" % self.runs[ctx.tier], "-seed=%d" % (ctx.seed % (2 ** 31 - 1) + 1),
                    "-artifact_prefix=" + os.path.join(wd, "crash-"), "-max_len=%d" % self.max_len,
                    "-max_total_time=%d" % max(5, int(budget * 0.8)), "-timeout=120",
-                   "-rss_limit_mb=4096", "-verbosity=0"]
+                   "-rss_limit_mb=4096", "-verbosity=1"]
             env = dict(os.environ, PYTHONPATH=VERIF + os.pathsep + os.environ.get("PYTHONPATH", ""))
             try:
                 pr = subprocess.run(cmd, cwd=VERIF, env=env, stdout=subprocess.PIPE,
